@@ -17,6 +17,10 @@ _WORD = re.compile(r'[^\W\d]\w*')
 def fragment_before(code, line, column):
     """Identifier fragment in front of the cursor if the stdlib tokenizer says the cursor is
     inside/at the end of a NAME token in code (not string/comment/number); else None."""
+    if any(ch in code for ch in '\r\x0b\x0c\x1c\x1d\x1e\x85\u2028\u2029'):
+        # line numbering of the stdlib tokenizer and of parso may differ on such texts: the
+        # independent fragment oracle is only used where both agree by construction
+        return None
     toks = mutate.ident_tokens(code)
     if toks is None:
         return None
